@@ -247,6 +247,7 @@ let read_cases (ic : in_channel) : case list =
 (* ---------------------------------------------------------------- the generator oracle *)
 (* Built from the implementation's log of generator events (b<bound> d<value> R): the value
    of a draw as a function of the bounds drawn since the last (re)seed. *)
+exception No_draw
 let make_gen (events : string list) (out : Buffer.t) : gen =
   let tbl : (string, BigZ.t) Hashtbl.t = Hashtbl.create 16 in
   let key hist = String.concat "," hist in
@@ -261,7 +262,9 @@ let make_gen (events : string list) (out : Buffer.t) : gen =
       end) events;
   fun (h : rng_state) ((_, hi) : Model.z * Model.z) ->
     let hs = zs hi :: List.map (fun (_, b) -> zs b) h in
-    let v = match Hashtbl.find_opt tbl (key hs) with Some v -> v | None -> BigZ.of_int (-999) in
+    (* a draw the implementation's log has no value for: the implementation was cut off by the watchdog before it
+       got there (or it never draws here, which then shows as a difference): the model cannot go on *)
+    let v = match Hashtbl.find_opt tbl (key hs) with Some v -> v | None -> raise No_draw in
     Buffer.add_string out (" b" ^ zs hi ^ " d" ^ BigZ.to_string v);
     z_of_zt v
 
@@ -444,4 +447,4 @@ let run_case (c : case) =
 
 let () =
   let ic = if Array.length Sys.argv > 1 then open_in Sys.argv.(1) else stdin in
-  List.iter run_case (read_cases ic)
+  List.iter (fun c -> try run_case c with No_draw -> (pr "END oof no-draw-in-the-log\n"; pr "DONE %s\n" c.id)) (read_cases ic)
